@@ -4,8 +4,12 @@ use serde::{Deserialize, Serialize};
 
 #[derive(Serialize, Deserialize, Clone, Debug, Default, PartialEq)]
 pub struct Sched {
-    /// uniform | sticky | pct | starve | conflict | replay
+    /// uniform | sticky | pct | starve | conflict | delay | replay
     pub strategy: String,
+    /// delay: a task whose pending operation's label starts with this prefix is held back while
+    /// anything else can run (delay-bounded scheduling aimed at one kind of operation)
+    #[serde(default)]
+    pub target: String,
     pub seed: u64,
     /// sticky: stay probability in percent; starve: probability (percent) that the victim may run
     pub p: u32,
